@@ -42,7 +42,7 @@ IsFault(o) == o \in FaultOutcomes
 (* action for a fault: an event whose outcome is a fault matches nothing   *)
 (* and the run is rejected.                                                *)
 (***************************************************************************)
-\* inv: sequence of [fn, arity, cls, req, exit] records; npool: number of pool values
+\* inv: sequence of [fn, arity, cls, internal, req, exit, pairs] records; npool: number of pool values
 C13WellFormed(e, inv, npool) ==
     /\ e.f \in 1 .. Len(inv)
     /\ inv[e.f].fn = e.fn
@@ -57,14 +57,14 @@ C13CallCatchableError(e) == e.outcome \in {OutcomeError, OutcomeMixed}
 \* An orderly exit (the fq main loop returned a status; no Go runtime fault) is part of the protocol only for
 \*  - the documented process enders (halt, halt_error, input at end of input, repl, ...): the runner flags them,
 \*    the spec pins which names may be flagged at all (ExitNames);
-\*  - internal functions (class "internal", names starting with "_"): they are the plumbing of those documented
+\*  - internal functions (names starting with "_", Go-registered or jq-defined): they are the plumbing of those documented
 \*    exits and of the interpreter state (_fatal_error, _cli_*, _global_state/1, _options_stack/1), so replacing
 \*    the state or calling an error callback legitimately ends the main loop with an error status.
 \* A public function that leaves the main loop although `try` was around it is rejected ("uncaught-exit").
 C13CallExit(e, inv, ExitNames) ==
     /\ e.outcome = OutcomeExit
     /\ \/ inv[e.f].exit /\ e.fn \in ExitNames
-       \/ inv[e.f].cls = "internal"
+       \/ inv[e.f].internal
 
 C13Accept(e, inv, ExitNames) ==
     \/ C13CallResults(e)
@@ -82,6 +82,8 @@ C13RejectSig(e, inv, npool) ==
 (*                                                                         *)
 (*   inv[i].req      pool ids the runner promises at every position of     *)
 (*                   function i (ALL ids for the classes in FullClasses)   *)
+(*   pool[v].base    value v belongs to the base pool (the extended        *)
+(*                   single-member option objects are extra)               *)
 (*   pool[v].inp     value v can be used as input (position 0)             *)
 (*   pool[v].benign  value v is a per-type benign default                  *)
 (*   pool[v].pair    value v takes part in the all-pairs obligation        *)
@@ -114,11 +116,11 @@ C13PairObligations(inv, pool) ==
                           /\ inv[x[1]].pairs /\ inv[x[1]].arity \in 1 .. 2
                           /\ x[2] < x[3] /\ x[3] <= inv[x[1]].arity + 1 } }
 
-\* the runner may thin the pool only for classes outside FullClasses; everything in FullClasses gets every pool value
-C13ReqHonest(inv, npool, FullClasses) ==
+\* the runner may thin the pool only for classes outside FullClasses; everything in FullClasses gets every base pool value
+C13ReqHonest(inv, pool, FullClasses) ==
     \A i \in 1 .. Len(inv) :
-        /\ \A k \in 1 .. Len(inv[i].req) : inv[i].req[k] \in 1 .. npool
-        /\ inv[i].cls \in FullClasses => { inv[i].req[k] : k \in 1 .. Len(inv[i].req) } = 1 .. npool
+        /\ \A k \in 1 .. Len(inv[i].req) : inv[i].req[k] \in 1 .. Len(pool)
+        /\ inv[i].cls \in FullClasses => { inv[i].req[k] : k \in 1 .. Len(inv[i].req) } = { v \in 1 .. Len(pool) : pool[v].base }
 
 \* the enumeration itself cannot silently shrink below what is known to exist
 C13InventoryPlausible(inv, MinPerClass, Anchors) ==
